@@ -79,6 +79,8 @@ type runner struct {
 
 	// nodes (or END) whose input is assembled by field mappings
 	mappedInputNodes map[string]bool
+	// those of them that also have static values
+	staticInputNodes map[string]bool
 
 	checkPointer         *checkPointer
 	interruptBeforeNodes []string
@@ -865,7 +867,14 @@ func (r *runner) initChannelManager(isStream bool) *channelManager {
 	for ch := range r.chanSubscribeTo {
 		zeroValue, emptyStream := r.chanSubscribeTo[ch].action.inputZeroValue, r.chanSubscribeTo[ch].action.inputEmptyStream
 		if r.mappedInputNodes[ch] {
-			zeroValue, emptyStream = zeroMappedInput, emptyMappedInputStream
+			// a node with an input key: its own "no input" already is a map[string]any, the key with the
+			// zero value of what the node itself takes, and the empty map would lack that key. (With
+			// static values the empty map is kept: they are merged into it and name the key themselves.)
+			info := r.chanSubscribeTo[ch].action.nodeInfo
+			keyed := info != nil && len(info.inputKey) > 0 && !r.staticInputNodes[ch] && zeroValue != nil && emptyStream != nil
+			if !keyed {
+				zeroValue, emptyStream = zeroMappedInput, emptyMappedInputStream
+			}
 		}
 		chs[ch] = builder(r.controlPredecessors[ch], r.dataPredecessors[ch], zeroValue, emptyStream)
 	}
